@@ -130,20 +130,27 @@ type Err struct {
 	Code   int64  `json:"code,omitempty"`
 	Msg    string `json:"msg,omitempty"`
 	Status int    `json:"status,omitempty"`
+	// Cause: the error wraps (Go 1.13 Unwrap) another error of this description; only errors that carry a code or a status of their own wrap one
+	Cause *Err `json:"cause,omitempty"`
 }
 
 type appErr struct {
-	code int
-	msg  string
+	code  int
+	msg   string
+	cause error
 }
 
 func (a *appErr) Code() int     { return a.code }
 func (a *appErr) Error() string { return a.msg }
+func (a *appErr) Unwrap() error { return a.cause }
 
 type statusErr struct {
 	status int
 	msg    string
+	cause  error
 }
+
+func (s *statusErr) Unwrap() error { return s.cause }
 
 func (s *statusErr) Status() int   { return s.status }
 func (s *statusErr) Error() string { return s.msg }
@@ -156,6 +163,13 @@ type appStatusErr struct {
 
 func (a *appStatusErr) Status() int { return a.status }
 
+func (e Err) cause() error {
+	if e.Cause == nil {
+		return nil
+	}
+	return e.Cause.build()
+}
+
 func (e Err) build() error {
 	switch e.Kind {
 	case "system":
@@ -163,11 +177,11 @@ func (e Err) build() error {
 	case "complex":
 		return oh.SystemComplexError{Code: oh.SystemError(e.Code), Message: e.Msg}
 	case "app":
-		return &appErr{int(e.Code), e.Msg}
+		return &appErr{int(e.Code), e.Msg, e.cause()}
 	case "status":
-		return &statusErr{e.Status, e.Msg}
+		return &statusErr{e.Status, e.Msg, e.cause()}
 	case "app+status":
-		return &appStatusErr{appErr{int(e.Code), e.Msg}, e.Status}
+		return &appStatusErr{appErr{int(e.Code), e.Msg, e.cause()}, e.Status}
 	}
 	return errors.New(e.Msg)
 }
@@ -180,6 +194,8 @@ type Case struct {
 	Server   string `json:"server"`
 	// Direct: answer through the direct-write wrappers (WriteData / Success / WriteError / WriteCplxError) instead of the handler constructors
 	Direct bool `json:"direct,omitempty"`
+	// Form: the request is a POST whose application/x-www-form-urlencoded body is Form (the callback is a QUERY parameter: a body field of that name is not one)
+	Form string `json:"form,omitempty"`
 }
 
 func decodeNum(b []byte) (interface{}, error) {
@@ -227,7 +243,12 @@ func runCase(c Case) error {
 		target += "?callback=" + url.QueryEscape(c.Callback)
 	}
 	rr := httptest.NewRecorder()
-	h.ServeHTTP(rr, httptest.NewRequest("GET", target, nil))
+	req := httptest.NewRequest("GET", target, nil)
+	if c.Form != "" {
+		req = httptest.NewRequest("POST", target, strings.NewReader(c.Form))
+		req.Header.Set("Content-Type", "application/x-www-form-urlencoded")
+	}
+	h.ServeHTTP(rr, req)
 	body := rr.Body.Bytes()
 	if got := rr.Header().Get("Server"); got != c.Server {
 		return fmt.Errorf("Server header %q, configured %q", got, c.Server)
@@ -441,8 +462,8 @@ func genErr(t *rapid.T) Err {
 var rec = ev.New(prop, "handlers-and-client",
 	"rapid-generated cases: success handler with JSON value trees (nil, bools, boundary ints/floats, strings with quotes/control/non-ASCII/invalid UTF-8, nested lists/maps, a tagged struct) or unmarshalable values (NaN, Inf, chan, func); "+
 		"error handlers with SystemError, SystemComplexError, an AppError implementation, plain errors with/without Status(), codes in {+-1, +-2^31, +-2^53, MinInt64, MaxInt64, uniform != 0}, error texts that are themselves JSON envelopes; "+
-		"with/without ?callback=; handlers run against a ResponseRecorder and on a loopback server queried by ApiRequest; oracle as in DESIGN.md C19; non-trivial = nested value, error case, callback or unmarshalable value").
-	Require("success", "error", "callback", "unmarshalable", "json-error-text", "plain-error")
+		"errors with a code or status of their own that wrap (Unwrap) an error of another kind - the answer follows the error itself, not its cause; with/without ?callback=, GET or POST with a form body that has (or has not) a field named callback; handlers run against a ResponseRecorder and on a loopback server queried by ApiRequest; oracle as in DESIGN.md C19; non-trivial = nested value, error case, callback or unmarshalable value").
+	Require("success", "error", "callback", "unmarshalable", "json-error-text", "plain-error", "wraps-another-error", "post-with-callback-field")
 
 func TestHandlersAndClient(t *testing.T) {
 	ev.Rapid(t, "handlers-and-client", 3000, 1200000, func(t *rapid.T) {
@@ -450,8 +471,14 @@ func TestHandlersAndClient(t *testing.T) {
 		if rapid.IntRange(0, 2).Draw(t, "cb") == 0 {
 			c.Callback = rapid.SampledFrom([]string{"cb", "jQuery123_456", "a.b.c", "cb%d", "f%s"}).Draw(t, "cbname")
 		}
+		if rapid.IntRange(0, 5).Draw(t, "post") == 0 {
+			c.Form = rapid.SampledFrom([]string{"name=x", "name=x&callback=other", "callback=&name=x", "callback=body_cb", "callback=cb"}).Draw(t, "form")
+		}
 		cl := []string{}
 		nt := c.Callback != ""
+		if strings.Contains(c.Form, "callback") {
+			cl, nt = append(cl, "post-with-callback-field"), true
+		}
 		if c.Callback != "" {
 			cl = append(cl, "callback")
 		}
@@ -468,6 +495,11 @@ func TestHandlersAndClient(t *testing.T) {
 			}
 		} else {
 			e := genErr(t)
+			if e.Kind != "system" && e.Kind != "complex" && e.Kind != "plain" && rapid.IntRange(0, 3).Draw(t, "wraps") == 0 {
+				in := genErr(t)
+				e.Cause = &in
+				cl = append(cl, "wraps-another-error")
+			}
 			c.Err = &e
 			cl = append(cl, "error")
 			nt = true
